@@ -144,14 +144,25 @@ def run(tier, seed, replay=None):
         v.inconc("strace cannot attach here: syscall observation and crash-point enumeration skipped (%s)" % probe.stderr.decode()[-200:])
 
     # ------------------------------------------------------------------ path shapes x options
-    n_shapes = 14 if tier == "quick" else 120
+    # systematic part: every shape x {no -O, -O out, -O nested} and every escaping spelling; then random combinations
+    SHAPES = ("plain", "dot", "dotdot-inside", "absolute", "two-sources", "escape")
+    ESCAPES = ("../outside/Esc.qml", "sub/../../outside/Esc.qml", "./../outside/Esc.qml", "sub/./../../outside/Esc.qml",
+               "a/b/../../../outside/Esc.qml")
+    grid = [(sh, od, None) for sh in SHAPES if sh != "escape" for od in (None, "out", "build/gen")]
+    grid += [("escape", od, e) for e in ESCAPES for od in ("out", "build/gen")]
+    n_shapes = len(grid) + (6 if tier == "quick" else 150)
     stems = ["Main", "settingsDialog", "X", "Form_2", "MyäPp", "MAINWINDOW", "a.b"]
     for k in range(n_shapes):
         stem = rng.choice(stems)
         sub = rng.choice(("", "ui", "a/b", "Sub Dir"))
         src_rel = os.path.join(sub, stem + ".qml")
-        shape = rng.choice(("plain", "dot", "dotdot-inside", "absolute", "two-sources", "escape"))
-        outdir = rng.choice((None, "out", "build/gen", "out"))
+        if k < len(grid):
+            shape, outdir, esc = grid[k]
+        else:
+            shape, outdir, esc = rng.choice(SHAPES), rng.choice((None, "out", "build/gen", "out")), rng.choice(ESCAPES)
+        if shape == "dotdot-inside" and (not sub or "/" in sub or " " in sub):
+            sub = "ui"
+            src_rel = os.path.join(sub, stem + ".qml")
         lowercase = rng.random() < 0.7
         dynamic = rng.random() < 0.6
         body = (DYNAMIC_QML if dynamic and rng.random() < 0.5 else STATIC_QML) % ("t%d" % k, "x")
@@ -174,8 +185,9 @@ def run(tier, seed, replay=None):
             os.makedirs(os.path.join(w, "..", "outside"), exist_ok=True)
             with open(os.path.join(w, "..", "outside", "Esc.qml"), "w") as f:
                 f.write(STATIC_QML % ("e", "z"))
-            sources = ["../outside/Esc.qml"] if rng.random() < 0.6 else ["sub/../../outside/Esc.qml"]
+            sources = [esc or rng.choice(ESCAPES)]
             os.makedirs(os.path.join(w, "sub"), exist_ok=True)
+            os.makedirs(os.path.join(w, "a", "b"), exist_ok=True)
         extra = (["-O", outdir] if outdir else []) + ([] if dynamic else ["--no-dynamic-binding"]) + ([] if lowercase else ["--no-lowercase-file-name"]) + sources
         before = snapshot(os.path.join(w, ".."))
         rp = {"files": files, "args": extra, "shape": shape}
